@@ -1113,11 +1113,16 @@ fn read_model(path: &str) -> BTreeMap<usize, ModelOut> {
 fn run(args: &Args) {
     let secp = Secp256k1::new();
     let mut model_path = None;
+    let (mut shard, mut shards) = (0usize, 1usize);
     let mut i = 0;
     while i < args.rest.len() {
         if args.rest[i] == "--model" {
             model_path = Some(args.rest[i + 1].clone());
             i += 1;
+        } else if args.rest[i] == "--shard" {
+            shard = args.rest[i + 1].parse().expect("shard");
+            shards = args.rest[i + 2].parse().expect("shards");
+            i += 2;
         }
         i += 1;
     }
@@ -1127,6 +1132,9 @@ fn run(args: &Args) {
     let (mut sig_checks, mut htlc_sig_checks, mut n_mutants, mut n_accepted_mutants) = (0u64, 0u64, 0u64, 0u64);
     let mut violations = 0u64;
     for idx in 0..args.n {
+        if idx % shards != shard {
+            continue;
+        }
         let c = gen_case(args.seed, idx, &args.tier);
         let mut rng = Rng::new(args.seed ^ (0x5eed + idx as u64 * 104729));
         let (mut a, b) = match (make_live(&secp, &c), make_live(&secp, &c)) {
@@ -1221,7 +1229,7 @@ fn run(args: &Args) {
                     n_accepted_mutants += 1;
                 }
             }
-            if matches!(r1, R::Ok(_)) && !ms.is_empty() {
+            if matches!(r1, R::Ok(_)) {
                 // an accepted call leaves payments behind in the node state: start again from a
                 // fresh node so that every call is judged in the same state
                 if let Some(fresh) = make_live(&secp, &c) {
@@ -1277,6 +1285,7 @@ fn run(args: &Args) {
                 "m": coq_list(&ms.iter().map(|x| x.coq()).collect::<Vec<_>>()),
                 "obs": obs.as_ref().map(|o| o.coq()),
                 "acc": acc, "ok": ok, "keys": keys,
+                "err": match &r1 { R::Err(m) => err_kind(m), R::Panic => "panic".to_string(), R::Ok(_) => String::new() },
             }));
         }
 
